@@ -51,6 +51,11 @@ pub fn gen(seed: u64, tier: Tier) -> ScenarioSpec {
         let k = rng.usize_below(rec.frames.len());
         rec.frames[k].items = rec.frames[k].items.max(1 + rng.below(3) as u16);
     }
+    // now and then the recorder is a newer build that interleaves events this library does not know
+    // (declared in the payload table); the known events around them must decode as before
+    if rng.chance(1, 8) {
+        rec.extras.unknown = super::c17::gen_unknown(&mut rng, super::c17::events_hint(&rec), 2);
+    }
     let len = gen::approx_len(&rec);
     let live = rng.chance(3, 10);
     let mut spec = gen::base_spec(P, if live { "S2" } else { "S1" }, seed, rec);
@@ -73,6 +78,7 @@ pub fn run(spec: &ScenarioSpec, ctx: &mut Ctx) -> Result<(), Violation> {
     prelude(spec.knob("prelude"), spec.seed, &m, ctx);
     ctx.shape("api", (spec.api == Api::Incremental) as u64);
     ctx.shape("special", spec.recorder.special_rate as u64);
+    ctx.probe_if(!spec.recorder.extras.unknown.is_empty(), "unknown (declared) events interleaved with the frame events");
     // one probe per gate actually exercised
     ctx.probe(&format!("layout of version class >= {}.{}", L::GATES[version_class(m.v) as usize].0, L::GATES[version_class(m.v) as usize].1));
     if spec.api == Api::Incremental {
